@@ -495,7 +495,13 @@ func (o *oracles) checkConverters(final bool) {
 		for id := range v.Conv[cn] {
 			o.everCached[fmt.Sprintf("%s/%d", cn, id)] = true
 		}
-		for id, d := range v.Conv[cn] {
+		convIDs := make([]uint64, 0, len(v.Conv[cn]))
+		for id := range v.Conv[cn] {
+			convIDs = append(convIDs, id)
+		}
+		sort.Slice(convIDs, func(i, j int) bool { return convIDs[i] < convIDs[j] })
+		for _, id := range convIDs {
+			d := v.Conv[cn][id]
 			if d == "empty" && bytesOf[id] == 0 {
 				continue
 			}
